@@ -53,6 +53,25 @@ TRAINEES = {
     "rl_blox.blox.probabilistic_ensemble.train_epoch": {("model", ())},
 }
 # positions of the trainee parameters in the signatures the table above was confirmed against
+# positional signatures of the update routines when the trainee table was recorded (a changed signature makes extra writes unjudgeable)
+SIGNATURES = {
+    'rl_blox.algorithm.a2c.train_policy_a2c': ('policy', 'policy_optimizer', 'policy_gradient_steps', 'observations', 'actions', 'advantages'),
+    'rl_blox.algorithm.actor_critic.train_policy_actor_critic': ('policy', 'policy_optimizer', 'policy_gradient_steps', 'value_function', 'observations', 'actions', 'next_observations', 'rewards', 'gamma_discount', 'gamma'),
+    'rl_blox.algorithm.ddpg.ddpg_update_actor': ('policy', 'policy_optimizer', 'q', 'observation'),
+    'rl_blox.algorithm.dqn.train_step_with_loss': ('loss', 'optimizer', 'q'),
+    'rl_blox.algorithm.mrq.update_critic_and_policy': ('q', 'q_target', 'q_optimizer', 'policy', 'policy_optimizer', 'encoder', 'encoder_target', 'gamma', 'activation_weight', 'next_action', 'batch', 'reward_scale', 'target_reward_scale'),
+    'rl_blox.algorithm.ppo.update_ppo': ('actor', 'critic', 'optimizer_actor', 'optimizer_critic', 'observation', 'action', 'reward', 'terminated', 'next_value', 'epochs'),
+    'rl_blox.algorithm.reinforce.train_policy_reinforce': ('policy', 'policy_optimizer', 'policy_gradient_steps', 'value_function', 'observations', 'actions', 'returns', 'gamma_discount'),
+    'rl_blox.algorithm.reinforce.train_value_function': ('value_function', 'value_function_optimizer', 'value_gradient_steps', 'observations', 'returns'),
+    'rl_blox.algorithm.sac._update_entropy_coefficient': ('optimizer', 'policy', 'target_entropy', 'action_key', 'observations', 'log_alpha'),
+    'rl_blox.algorithm.sac.sac_update_actor': ('policy', 'policy_optimizer', 'q', 'action_key', 'observation', 'alpha'),
+    'rl_blox.algorithm.td7.td7_update_actor': ('policy', 'actor_optimizer', 'critic', 'observation'),
+    'rl_blox.algorithm.td7.td7_update_critic': ('fixed_embedding', 'fixed_embedding_target', 'critic', 'critic_target', 'critic_optimizer', 'gamma', 'observation', 'action', 'next_observation', 'next_action', 'reward', 'terminated', 'min_priority', 'q_min', 'q_max'),
+    'rl_blox.blox.embedding.model_based_encoder.update_model_based_encoder': ('encoder', 'encoder_target', 'encoder_optimizer', 'the_bins', 'encoder_horizon', 'dynamics_weight', 'reward_weight', 'done_weight', 'target_delay', 'batch_size', 'normalize_targets', 'batches', 'environment_terminates'),
+    'rl_blox.blox.embedding.sale.update_sale': ('embedding', 'embedding_optimizer', 'observations', 'actions', 'next_observations'),
+    'rl_blox.blox.probabilistic_ensemble.train_epoch': ('model', 'optimizer', 'X', 'Y', 'indices'),
+}
+
 TRAINEE_POS = {
     "rl_blox.algorithm.a2c.train_policy_a2c": {(0, ())},
     "rl_blox.algorithm.actor_critic.train_policy_actor_critic": {(0, ())},
@@ -299,6 +318,29 @@ def _same_obj(res, fn, a: ast.AST, a_at: ast.AST, b: ast.AST, b_at: ast.AST) -> 
     return rd[na].get(pa[0]) == rd[nb].get(pa[0])
 
 
+def _known():
+    from ..expand import load_known
+    return load_known()
+
+
+def _unsummarised_calls(repo, fn, mi):
+    """Calls of this routine into repository functions outside the frozen surface, or through scan / vmap / partial wrappers over such."""
+    known = _known()
+    out = []
+    for c in ast.walk(fn):
+        if isinstance(c, ast.Call) and isinstance(c.func, (ast.Name, ast.Attribute)):
+            r = repo.resolve_expr(mi, c.func)
+            if r and r.startswith(repo.PKG + ".") and repo.has(r) and r not in known:
+                out.append(r.rsplit(".", 1)[1])
+        if isinstance(c, ast.Call):
+            for a in list(c.args) + [k.value for k in c.keywords]:
+                if isinstance(a, (ast.Name, ast.Attribute)):
+                    r = repo.resolve_expr(mi, a)
+                    if r and r.startswith(repo.PKG + ".") and repo.has(r) and r not in known:
+                        out.append(r.rsplit(".", 1)[1])
+    return sorted(set(out))
+
+
 def run(ck, repo: Repo, tier: str):
     res = Resolver(repo)
     eff = Effects(repo, res)
@@ -401,6 +443,21 @@ def run(ck, repo: Repo, tier: str):
             missing = want - mods
             ok = not extra and not missing
             why = ""
+            if not ok:
+                # evidence only when the written / missing component is a parameter path of this routine and every call it makes was
+                # summarised; temporaries of expanded helpers, positions that moved in the signature and gradient steps that go through new
+                # functions / wrappers are not attributable
+                roots = {(_p(x).split(".")[0]) for x in extra | missing}
+                sig_now = positional_params(fn)
+                if any("__i" in r_ for r_ in roots) or any(r_ not in sig_now for r_ in roots):
+                    ck.incomplete.append(f"{q}: write set {sorted(_p(x) for x in mods)} cannot be attributed to the signature positions of the documented trainees (unrecognised form)")
+                    continue
+                if missing and _unsummarised_calls(repo, fn, mi):
+                    ck.incomplete.append(f"{q}: the documented trainee {sorted(_p(x) for x in missing)} is handed to code that is not summarised ({_unsummarised_calls(repo, fn, mi)[:2]}): cannot decide whether it is trained")
+                    continue
+                if extra and tuple(sig_now) != tuple(SIGNATURES.get(q, sig_now)):
+                    ck.incomplete.append(f"{q}: the signature changed since the trainee table was recorded; the extra write {sorted(_p(x) for x in extra)} cannot be judged")
+                    continue
             if extra:
                 why = f"also writes {sorted(_p(x) for x in extra)}: a component it is not documented to train is changed"
             elif missing:
@@ -414,6 +471,9 @@ def run(ck, repo: Repo, tier: str):
             if "<locals>" in qual or qual in TRAINEES or qual in transparent:
                 continue
             direct = [s for s in (eff.summary(qual) and eff.sites.get(qual, [])) if s[0] == "optimizer.update"]
+            if direct and qual not in _known():
+                ck.incomplete.append(f"{qual}: a new function applies an optimizer update and is not expanded at its call sites (cannot attribute the update)")
+                continue
             if direct:
                 ck.ob("R2-effects", qual, "unregistered-update-routine", False, f"`{short(direct[0][1], 60)}`", "function applies an optimizer update but has no documented trainee set", loc(mi, direct[0][1]))
     ck.guard(_section_3)
